@@ -1344,6 +1344,51 @@ static void part_cal(void) {
 	}
 }
 
+/* the time after which a blocking connection counts as timed out is the caller's setting: every way of configuring the transfer
+ * time-out reaches the socket of the next request (both directions), and a server that stays silent then ends the request with a
+ * network error. (The context-level setter applies to the transport clients that exist when it is called: it is used after the
+ * endpoint has been configured; calling it earlier returns KSI_OK without effect, which the statement does not speak about.) */
+static void part_opt(void) {
+	static const int SECS[] = {1, 7, 120};
+	int how, vi, silent;
+	for (how = 0; how < 2; how++) for (vi = 0; vi < 3; vi++) for (silent = 0; silent < 2; silent++) {
+		KSI_CTX *ctx;
+		KSI_NetworkClient *tcp = NULL;
+		int own = 0, res, v = SECS[vi];
+		sn_conn *c;
+		if (!CASE_BEGIN("opt:%s:%ds:%s", how == 0 ? "ctx-setter" : "tcp-client-setter", v, silent ? "silent-server" : "answering-server")) continue;
+		env_install();
+		ctx = ku_ctx();
+		hook_budget = 2000;
+		if (how == 1) {
+			/* an application-built TCP client installed as the context's network provider */
+			if (KSI_TcpClient_new(ctx, &tcp) != KSI_OK || KSI_TcpClient_setAggregator(tcp, "aggr.test", 3332, LOGIN, KEY) != KSI_OK) vf_harness_error("tcp client");
+			if (KSI_TcpClient_setTransferTimeoutSeconds(tcp, v) != KSI_OK) vf_harness_error("KSI_TcpClient_setTransferTimeoutSeconds");
+			if (KSI_CTX_setNetworkProvider(ctx, tcp) != KSI_OK) vf_harness_error("setNetworkProvider");
+		} else {
+			KSI_CTX_setAggregator(ctx, URI, LOGIN, KEY);
+			if (how == 0 && KSI_CTX_setTransferTimeoutSeconds(ctx, v) != KSI_OK) vf_harness_error("KSI_CTX_setTransferTimeoutSeconds");
+		}
+		if (silent) ev_add(&CS[0].rx, 0, A_TIMEDOUT, BR_SZ);
+		res = blk_sign(ctx, 0, &own);
+		c = sn_nconn >= 1 ? &sn_conns[0] : NULL;
+		if (c == NULL) vf_fail("no-connection", "the blocking request opened no connection");
+		else if (!c->rcv_timeo_set || !c->snd_timeo_set || c->rcv_timeo_s != v || c->snd_timeo_s != v)
+			vf_fail("timeout-option-not-applied", "transfer time-out configured as %d s, the request's socket has receive time-out %ld s%s and send time-out %ld s%s", v, c->rcv_timeo_s, c->rcv_timeo_set ? "" : " (never set)", c->snd_timeo_s, c->snd_timeo_set ? "" : " (never set)");
+		if (silent) {
+			vf_outcome("opt:silent:%s", res == KSI_OK ? "success" : "error");
+			if (res == KSI_OK) vf_fail("signature-from-partial-data", "the server never answered but signing succeeded");
+			else if (!is_net_error(res)) vf_fail("not-a-network-error", "a timed-out receive reported as 0x%x, which is not a network error", res);
+		} else {
+			vf_outcome("opt:answered:%s", res == KSI_OK ? "success" : "error");
+			if (res != KSI_OK || !own) vf_fail("request-failed", "nothing went wrong on the connection but signing failed with 0x%x", res);
+		}
+		KSI_CTX_free(ctx);
+		count_env(1);
+		CASE_END(1);
+	}
+}
+
 static void run(void) {
 	const char *only = getenv("C14_PART");     /* debugging aid: run one part only */
 	imprints_init();
@@ -1353,6 +1398,7 @@ static void run(void) {
 	PART("rxc", part_rxc);
 	PART("flt", part_flt);
 	PART("blk", part_blk);
+	PART("opt", part_opt);
 	PART("e2e", part_e2e);
 	PART("txf", part_txf);
 	PART("txa", part_txa);
